@@ -1854,6 +1854,8 @@ fn run_case(r: &mut Rng, focus: Focus, len: usize) -> World {
             if r.chance(3, 5) {
                 let hl = match r.below(8) { 0 => 0, 1 => 255, 2 => 256, 3 => r.range(257, 300) as usize, _ => r.range(1, 12) as usize };
                 let dl = match r.below(6) { 0 => 0, 1 => 1, 2 => 2, 3 => 3, 4 => r.range(4, 40) as usize, _ => r.range(41, 2000) as usize };
+                // (C11: now and then several KiB — a buffer that is bounded by anything but the NUMBER of datagrams shows)
+                let dl = if focus == Focus::C11 && r.chance(1, 4) { r.range(3000, 12000) as usize } else { dl };
                 // under C11 half of the datagrams carry the flow id of a stream (the two id spaces overlap)
                 let stream_ids: Vec<u32> = if focus == Focus::C11 { let mut v: Vec<u32> = w.fid_port.keys().copied().collect(); v.sort_unstable(); v } else { vec![] };
                 let fid = if !stream_ids.is_empty() && r.chance(1, 2) { u64::from(*r.pick(&stream_ids)) } else if r.chance(1, 5) { 0 } else { r.range(1, 9) };
@@ -1868,7 +1870,8 @@ fn run_case(r: &mut Rng, focus: Focus, len: usize) -> World {
             match r.below(6) {
                 0 | 1 if w.view[e].rng_left > 6 => {
                     let req = w.next_req; w.next_req += 1; w.view[e].rng_left -= 3;
-                    let n = r.range(0, 6) as usize;
+                    // (hosts of any length: the Bind frame carries them as they are, whatever the bind type)
+                    let n = match r.below(10) { 0 => 255, 1 => 256, 2 => r.range(257, 400) as usize, _ => r.range(0, 6) as usize };
                     w.stim(e, &[s("bindreq"), s(req), s(if r.chance(1, 2) { 1 } else { 3 }), hexd(&r.bytes(n)), s(2000 + req)]);
                 }
                 2 | 3 => { w.stim(e, &[s("bindnext")]); }
